@@ -297,6 +297,11 @@ def _stable_str(r):
             return True, "repr of a constant / operator string"
         if a[0] == "field" or (a[0] == "attr" and a[1] == NODE):
             return True, f"repr of field {a[-1]}"
+        # one entry of a field (names, numbers, nodes: data whose repr is the
+        # same in every process)
+        if a[0] in ("elem", "index") and isinstance(a[1], tuple) and (
+                a[1][0] == "field" or (a[1][0] == "attr" and a[1][1] == NODE)):
+            return True, f"repr of an entry of field {a[1][-1]}"
         return False, f"repr({_short(a)})"
     if r[0] == "call" and r[1] == "str":
         return _stable_str(("call", "repr", r[2], ()))
